@@ -6,8 +6,9 @@ package tables
 //
 // TestVerifC15Authz drives the two REAL authorization functions on the same statements and
 // callers:
-//   - authorizeStatement (sql_permissions.go, the @sql endpoint) against a real table_perms store
-//     holding each caller's grants on a Restricted DSN;
+//   - authorizeAndFormatStatements (sql_permissions.go, the @sql endpoint's entry point, which calls
+//     authorizeStatement per statement) against a real table_perms store holding each caller's grants
+//     on a Restricted DSN, for one-statement requests and for two-statement batches;
 //   - scripting.authorizeAndClassifySQL (the @transaction sql / readrows task) with
 //     scripting.AuthorizedFunc replaced by a recording oracle that answers from the same grants and
 //     notes every (table, permission) it was asked about and what it answered.
@@ -44,7 +45,8 @@ type c15Profile struct {
 type c15AuthzIn struct {
 	Statements []string     `json:"statements"`
 	Profiles   []c15Profile `json:"profiles"`
-	Pairs      [][2]int     `json:"pairs"` // (statement index, profile index)
+	Pairs      [][2]int     `json:"pairs"`   // (statement index, profile index)
+	Batches    [][3]int     `json:"batches"` // (first statement, second statement, profile index): one @sql request
 }
 
 type c15Stmt struct {
@@ -64,9 +66,17 @@ type c15Pair struct {
 	Panicked string     `json:"panic,omitempty"`
 }
 
+type c15Batch struct {
+	A       int `json:"a"`
+	B       int `json:"b"`
+	P       int `json:"p"`
+	SQLCode int `json:"sql_status"`
+}
+
 type c15AuthzOut struct {
-	Statements []c15Stmt `json:"statements"`
-	Pairs      []c15Pair `json:"pairs"`
+	Statements []c15Stmt  `json:"statements"`
+	Pairs      []c15Pair  `json:"pairs"`
+	Batches    []c15Batch `json:"batches"`
 }
 
 func TestVerifC15Authz(t *testing.T) {
@@ -177,6 +187,40 @@ func TestVerifC15Authz(t *testing.T) {
 		out.Statements = append(out.Statements, st)
 	}
 
+	sqldb := &database.Database{DSN: "d1", Provider: defs.SqliteProvider}
+
+	mkSession := func(pi int) *router.Session {
+		perms := []string{defs.LogonPermission, defs.SQLPermission}
+		if in.Profiles[pi].DSNAdmin {
+			perms = append(perms, defs.DSNAdminPermission)
+		}
+
+		return &router.Session{ID: 100 + pi, User: in.Profiles[pi].Name, Permissions: perms, URLParts: map[string]any{"dsn": "d1"}}
+	}
+
+	out.Batches = []c15Batch{}
+
+	for _, b := range in.Batches {
+		if parsed[b[0]] == nil || parsed[b[1]] == nil {
+			continue
+		}
+
+		scripting.AuthorizedFunc = Authorized
+		res := c15Batch{A: b[0], B: b[1], P: b[2]}
+
+		func() {
+			defer func() {
+				if r := recover(); r != nil {
+					res.SQLCode = -1
+				}
+			}()
+
+			_, _, res.SQLCode = authorizeAndFormatStatements(mkSession(b[2]), sqldb, []string{in.Statements[b[0]], in.Statements[b[1]]}, httptest.NewRecorder())
+		}()
+
+		out.Batches = append(out.Batches, res)
+	}
+
 	for _, pr := range in.Pairs {
 		si, pi := pr[0], pr[1]
 		if parsed[si] == nil {
@@ -202,7 +246,7 @@ func TestVerifC15Authz(t *testing.T) {
 
 			// @sql endpoint: the real Authorized() over the real store
 			scripting.AuthorizedFunc = Authorized
-			res.SQLCode = authorizeStatement(session, httptest.NewRecorder(), "d1", parsed[si])
+			_, _, res.SQLCode = authorizeAndFormatStatements(session, sqldb, []string{in.Statements[si]}, httptest.NewRecorder())
 
 			// @transaction sql task: recording oracle
 			asks = nil
